@@ -1,6 +1,7 @@
 package main
 
 import (
+	"sync"
 	"bytes"
 	stdgzip "compress/gzip"
 	"fmt"
@@ -93,7 +94,7 @@ func highRatioBlock(exts int, last byte) []byte {
 func runCodecs(seed uint64, n int, tier string, out string, replay string) {
 	rnd := hx.NewRand(seed)
 	sum := hx.NewSummary("codecs", seed)
-	sum.Rule = "Coq-evaluated cases: (a) level handling — a profile configured with each value of {0..13, 99, 2^31-1, 2^31, 2^32-1, 2^32+5} through compress.Reset; pike's gzip/brotli output for a probe body is compared with the reference encoders at every level to identify the level in effect; (b) decoder dispatch for the five documented encodings, identity and unsupported names; (c) LZ4 blocks — encoder outputs for n small bodies, hand-made high-ratio blocks (0..6 length-extension bytes: up to 1.5 KiB from 11 bytes), truncated blocks — pike's LZ4Decode vs the block-decoder model. Go-side only (volume): round trips of bodies 0 B..1 MiB (random, text, zeros, pattern) through pike's gzip/brotli at levels -1..12 decoded by pike AND by the reference decoders; all five pike decoders on reference-encoded streams incl. 1 MiB of zeros; 200 mutated streams per decoder under recover + 20 s watchdog; structured valid streams (multi-member / header-field / stored / huffman-only gzip, multi-frame and checksummed zstd, brotli at several qualities and window sizes and with flushes, literal-only snappy, LZ4 HC block) must be restored in full; ~90 crafted malformed streams (extreme declared sizes and flag combinations in zstd / snappy / gzip / brotli / lz4 framing) under recover + watchdog. non-trivial = level case outside 1..9 or block with ratio > 10; distinct by case content"
+	sum.Rule = "Coq-evaluated cases: (a) level handling — a profile configured with each value of {0..13, 99, 2^31-1, 2^31, 2^32-1, 2^32+5} through compress.Reset; pike's gzip/brotli output for a probe body is compared with the reference encoders at every level to identify the level in effect; (b) decoder dispatch for the five documented encodings, identity and unsupported names; (c) LZ4 blocks — encoder outputs for n small bodies, hand-made high-ratio blocks (0..6 length-extension bytes: up to 1.5 KiB from 11 bytes), truncated blocks — pike's LZ4Decode vs the block-decoder model. Go-side only (volume): round trips of bodies 0 B..1 MiB (random, text, zeros, pattern) through pike's gzip/brotli at levels -1..12 decoded by pike AND by the reference decoders; all five pike decoders on reference-encoded streams incl. 1 MiB of zeros; 200 mutated streams per decoder under recover + 20 s watchdog; structured valid streams (multi-member / header-field / stored / huffman-only gzip, multi-frame and checksummed zstd, brotli at several qualities and window sizes and with flushes, literal-only snappy, LZ4 HC block) must be restored in full; ~90 crafted malformed streams (extreme declared sizes and flag combinations in zstd / snappy / gzip / brotli / lz4 framing) under recover + watchdog; 24 goroutines x 12 concurrent gzip+brotli encodes at shared levels, each stream decoded by the reference decoders. non-trivial = level case outside 1..9 or block with ratio > 10; distinct by case content"
 	header := "From Coq Require Import List NArith ZArith.\nImport ListNotations.\nFrom Pike Require Import Base.Bytes Model.Compress Model.LZ4 Corr.C12Corr.\n"
 	w := hx.NewCaseWriter(out, "codecs", header, "list c12_case", "check_cases", 60, sum)
 	distinct := hx.NewDistinct()
@@ -419,6 +420,59 @@ func runCodecs(seed uint64, n int, tier string, out string, replay string) {
 			if g.panicked || g.hung {
 				sum.ImplViolations = append(sum.ImplViolations, map[string]interface{}{"property": "C12", "kind": "panic-or-hang", "codec": c.codec, "what": c.what, "panicked": g.panicked, "hung": g.hung, "stream_hex": fmt.Sprintf("%x", c.data[:min(len(c.data), 64)])})
 			}
+		}
+	}
+	// ---- concurrent encoders: many goroutines compress different bodies at the same levels at once;
+	// every stream must be complete and restore its own body (reference decoders), no panic
+	{
+		var wg sync.WaitGroup
+		var mu sync.Mutex
+		bad := 0
+		var first map[string]interface{}
+		for g := 0; g < 24; g++ {
+			wg.Add(1)
+			go func(g int) {
+				defer wg.Done()
+				r := hx.NewRand(seed*7919 + uint64(g))
+				for it := 0; it < 12; it++ {
+					body := bodyKinds(r, []int{0, 900, 5000, 70000}[r.Intn(4)])[[]string{"random", "text", "zeros", "pattern"}[r.Intn(4)]]
+					lvl := []int{1, 6, 9}[r.Intn(3)]
+					res := func() (res string) {
+						defer func() {
+							if p := recover(); p != nil {
+								res = fmt.Sprintf("panic: %v", p)
+							}
+						}()
+						gz, e1 := compress.VerifGzip(body, lvl)
+						br, e2 := compress.VerifBrotli(body, lvl)
+						if e1 != nil || e2 != nil {
+							return fmt.Sprintf("encode error: %v %v", e1, e2)
+						}
+						if d, err := refGunzip(gz); err != nil || !bytes.Equal(d, body) {
+							return fmt.Sprintf("gzip stream does not restore its body (err %v, %d of %d bytes)", err, len(d), len(body))
+						}
+						if d, err := refBrotliDecode(br); err != nil || !bytes.Equal(d, body) {
+							return fmt.Sprintf("brotli stream does not restore its body (err %v, %d of %d bytes)", err, len(d), len(body))
+						}
+						return ""
+					}()
+					mu.Lock()
+					rt += 2
+					if res != "" {
+						bad++
+						if first == nil {
+							first = map[string]interface{}{"property": "C12", "kind": "concurrent-encode", "what": res, "level": lvl, "size": len(body), "goroutines": 24}
+						}
+					}
+					mu.Unlock()
+				}
+			}(g)
+		}
+		wg.Wait()
+		sum.Distribution["concurrent_encodes"] = 24 * 12 * 2
+		if first != nil {
+			first["count"] = bad
+			sum.ImplViolations = append(sum.ImplViolations, first)
 		}
 	}
 	sum.Distribution["go_side_roundtrips"] = rt
